@@ -2,6 +2,7 @@ package checks
 
 import (
 	"bytes"
+	"encoding/json"
 	"fmt"
 	"math/rand"
 	"reflect"
@@ -29,7 +30,8 @@ func init() {
 			"9: primitive sweep of one tag shape harvested from ngapType (all values of ranges <= 2^16 in thorough, boundaries otherwise) at bit offsets 0..7, or a >=16K fragmentation case. " +
 			"distinct = hash of the reference encoding (or of the perturbation); non-trivial = encoding longer than 4 octets, or a primitive chunk with >= 8 evaluations",
 		Assumptions: []string{
-			"the ASN.1 schema is what the ngapType struct tags say; a hand-written table of the TS 38.413 constraints of ~50 types on the emulator's path is asserted against the tags in case 0",
+			"the ASN.1 schema the reference works from is a SNAPSHOT of the ngapType constraint tags (2823 fields, harness/ref/per/ngap_schema_snapshot.json) taken from the pinned tree after the tag defects found by C03/C04 were repaired; the library reads the live tags, so a changed tag shows as a wire difference and as schema-drift:<Type.Field> in case 0. A correction of a tag that the snapshot has wrong would be reported too and has to be adjudicated (update the snapshot)",
+			"a hand-written table of the TS 38.413 constraints of ~50 types on the emulator's path is asserted against the live tags in case 0",
 			"ref/per (self-tested against hand-derived X.691 encodings at start) is the oracle",
 			"a zero-length octet-aligned field causes no padding",
 			"ENUMERATED / CHOICE extension additions are not expressible in the Go types and are not generated",
@@ -132,7 +134,7 @@ func harvest() {
 					if t.Field(i).Name == "Present" && i == 0 {
 						continue
 					}
-					walk(t.Field(i).Type, dropRef(t.Field(i).Tag.Get("aper")))
+					walk(t.Field(i).Type, dropRef(per.FieldTag(t, i)))
 				}
 			}
 		}
@@ -185,7 +187,31 @@ func runC03(c *fw.Case) (o fw.Outcome) {
 	}
 }
 
+// schemaRoots: NGAP-PDU and the containers encoded on their own.
+func schemaRoots() []reflect.Type {
+	return append([]reflect.Type{reflect.TypeOf(ngapType.NGAPPDU{})}, transferTypes...)
+}
+
+// SchemaDumpJSON renders the live tags (hx schema-dump).
+func SchemaDumpJSON() []byte {
+	b, _ := json.MarshalIndent(per.DumpSchema(schemaRoots()...), "", " ")
+	return append(b, '\n')
+}
+
 func c03Schema(c *fw.Case) (o fw.Outcome) {
+	// every constraint tag against the schema snapshot the reference works from (see ref/per/schema.go)
+	if per.SnapshotSize() < 1000 {
+		o.Inconcl("schema snapshot missing or too small (%d fields)", per.SnapshotSize())
+		return
+	}
+	o.Count("snapshot_fields_compared", int64(per.SnapshotSize()))
+	if drift := per.SchemaDrift(schemaRoots()...); len(drift) > 0 {
+		k := drift[0][:strings.Index(drift[0], ":")]
+		o.Input = "schema snapshot against the live aper tags"
+		o.Digest, o.Nontrivial = fw.HashS("schema"), true
+		o.Fail("schema-drift:"+k, "%d constraint tag(s) differ from the TS 38.413 schema snapshot the reference encoder works from; values of these types are now encoded / accepted differently:\n %s", len(drift), strings.Join(drift, "\n "))
+		return
+	}
 	o.Input = fmt.Sprintf("schema table: %d wrapper types against their aper tags", len(schemaTable))
 	o.Digest, o.Nontrivial = fw.HashS("schema"), true
 	o.Tag("schema-table")
@@ -204,7 +230,7 @@ func c03Schema(c *fw.Case) (o fw.Outcome) {
 			o.Fail("schema:"+n, "type %s is expected to wrap a single Value/List field, has %d fields", n, t.NumField())
 			return
 		}
-		got := normTag(t.Field(0).Tag.Get("aper"))
+		got := normTag(per.LiveTag(t, 0))
 		if got != normTag(schemaTable[n]) {
 			o.Fail("schema:"+n, "constraint of %s: tag says %q, TS 38.413 says %q", n, got, normTag(schemaTable[n]))
 			return
